@@ -108,6 +108,23 @@ def main():
         if not ok:
             chk.violation({"kind": "swizzle_pool"}, "with %d random fields in a rand set the fields that get randomising targets are not drawn from the whole set: %s" % (n, info),
                           {"engine": "script", "source": "import sys; sys.path.insert(0, '/verif'); from vf import swzkernel as K; ok, info = K.swizzle_pool(%d); print(info); sys.exit(0 if ok else 1)" % n})
+    # a dist under a condition over a random field steers its field only while the condition holds; otherwise the field is randomised
+    # over its domain (all domain targets t, symbolic) -- driven through the real per-call pipeline on objects built with the public API
+    for kw in [dict(w=w_, else_branch=eb, implies=im) for w_ in ((3, 4, 8) if t == "quick" else (2, 3, 4, 5, 8, 12, 16)) for eb, im in ((False, False), (True, False), (False, True))]:
+        r, detail, nn, cex = K.guarded_dist_swizzle(**kw)
+        chk.count("guarded_dist%s" % (sorted(kw.items()),))
+        chk.q(r if r in ("sat", "unsat") else "unknown")
+        if r == "sat":
+            if K.replay_guarded_dist(kw["w"], kw["else_branch"], kw["implies"], cex) is not True:
+                chk.harness_error("guarded dist counterexample did not replay on the real Boolector: %s %s" % (kw, detail))
+                continue
+            chk.violation({"kind": "guarded_dist", "obligation": cex[0]},
+                          "dist under a condition on a random field (%s): %s -- with the condition false (mode=%d) the randomising constraints still admit/force a=%d "
+                          "for the domain target %d (replayed with the real Boolector): values outside the dist are starved while the dist does not apply" % (
+                              kw, cex[0], cex[3], cex[2], cex[1]),
+                          {"engine": "script", "source": "import sys; sys.path.insert(0, '/verif'); from vf import swzkernel as K; r = K.guarded_dist_swizzle(**%r); print(r); sys.exit(0 if r[0] == 'unsat' else 1)" % (kw,)})
+        elif r != "unsat":
+            chk.note_inconclusive("guarded dist kernel %s: %s %s" % (kw, r, detail))
     # the RNG wrapper the domains are drawn through
     from vf import e3
     e3.run_e3(chk, [dict(bits=b, swap=sw) for b in (8, 31, 32, 33, 53, 54, 64, 65, 128) for sw in (False, True)], rng_build, replay_module="checks.c14:rng_build", chunk=1)
